@@ -26,8 +26,9 @@
 (*                                not handed to the receiver (or send fails)*)
 (*  C04.tampered_accepted         altered packet handed to a receiver       *)
 (*  C04.connected_side_gave_up    a connected transport left `connected`    *)
-(*                                although nobody closed either side (e.g.  *)
-(*                                because of a packet altered in transit)   *)
+(*                                while its peer is connected too and       *)
+(*                                nobody closed either side (e.g. because   *)
+(*                                of a packet altered in transit)           *)
 (*  C04.spurious_delivery         receiver got something that was not sent  *)
 (*                                to it (wrong content, kind, duplicate)    *)
 EXTENDS Dtls, Json, IOUtils, TLCExt, SequencesExt
@@ -74,7 +75,9 @@ Consume ==
      CASE ev.op = "state" ->
             IF ev.st = "connected" /\ ~ShouldConnect(cfg, ev.side)
               THEN verdict' = "C04.connect_policy" /\ KeepJ
-            ELSE IF ev.st \in {"closed", "failed"} /\ state[ev.side] = "connected" /\ stopped = {} /\ ~LinkCut
+            ELSE IF /\ ev.st \in {"closed", "failed"} /\ state[ev.side] = "connected"
+                    /\ conn[Peer(ev.side)] /\ state[Peer(ev.side)] = "connected"     \* (a peer that never connected may refuse)
+                    /\ stopped = {} /\ ~LinkCut
               THEN verdict' = "C04.connected_side_gave_up" /\ KeepJ
             ELSE /\ state' = [state EXCEPT ![ev.side] = ev.st]
                  /\ conn' = [conn EXCEPT ![ev.side] = @ \/ ev.st = "connected"]
